@@ -26,7 +26,16 @@
 using namespace Parma_Polyhedra_Library;
 using namespace vh;
 
+struct PFunc {  // partial function for map_space_dimensions
+  std::vector<long> m; unsigned maxc;
+  PFunc() : maxc(0) {}
+  bool has_empty_codomain() const { for (size_t i = 0; i < m.size(); ++i) if (m[i] >= 0) return false; return true; }
+  dimension_type max_in_codomain() const { return maxc; }
+  bool maps(dimension_type i, dimension_type& j) const { if (i >= m.size() || m[i] < 0) return false; j = m[i]; return true; }
+};
+
 typedef BD_Shape<mpq_class> QBDS;
+typedef Octagonal_Shape<mpq_class> QOCT;
 
 // ---- component printing ----
 static void print_comp(std::ostream& o, const Grid& g, unsigned dim) {
@@ -149,7 +158,22 @@ struct ProdT : IProd {
       unsigned v = tk.nextl(); Relation_Symbol r = read_rel(tk); mpz_class den = tk.nextz(); Linear_Expression e = read_expr(tk, d, b);
       if (op == "generalized_affine_image") p.generalized_affine_image(Variable(v), r, e, den); else p.generalized_affine_preimage(Variable(v), r, e, den);
     }
+    else if (op == "generalized_affine_image_lhs" || op == "generalized_affine_preimage_lhs") {
+      mpz_class b2; Linear_Expression l = read_expr(tk, d, b); Relation_Symbol r = read_rel(tk); Linear_Expression e = read_expr(tk, d, b2);
+      if (op == "generalized_affine_image_lhs") p.generalized_affine_image(l, r, e); else p.generalized_affine_preimage(l, r, e);
+    }
+    else if (op == "bounded_affine_image" || op == "bounded_affine_preimage") {
+      unsigned v = tk.nextl(); mpz_class den = tk.nextz(); mpz_class b2; Linear_Expression lb = read_expr(tk, d, b); Linear_Expression ub = read_expr(tk, d, b2);
+      if (op == "bounded_affine_image") p.bounded_affine_image(Variable(v), lb, ub, den); else p.bounded_affine_preimage(Variable(v), lb, ub, den);
+    }
     else if (op == "unconstrain") p.unconstrain(Variable(tk.nextl()));
+    else if (op == "unconstrain_set") { long k = tk.nextl(); Variables_Set vs; for (long i = 0; i < k; ++i) vs.insert(Variable(tk.nextl())); p.unconstrain(vs); }
+    else if (op == "remove_space_dimensions") { long k = tk.nextl(); Variables_Set vs; for (long i = 0; i < k; ++i) vs.insert(Variable(tk.nextl())); p.remove_space_dimensions(vs); }
+    else if (op == "map_space_dimensions") { PFunc f; long k = tk.nextl(); for (long i = 0; i < k; ++i) { long j = tk.nextl(); f.m.push_back(j); if (j >= 0 && (unsigned) j > f.maxc) f.maxc = j; } p.map_space_dimensions(f); }
+    else if (op == "expand_space_dimension") { unsigned v = tk.nextl(); unsigned m = tk.nextl(); p.expand_space_dimension(Variable(v), m); }
+    else if (op == "fold_space_dimensions") { long k = tk.nextl(); Variables_Set vs; for (long i = 0; i < k; ++i) vs.insert(Variable(tk.nextl())); unsigned dd = tk.nextl(); p.fold_space_dimensions(vs, Variable(dd)); }
+    else if (op == "widening_assign") p.widening_assign(arg(tk.nextl()));
+    else if (op == "add_congruences") p.add_congruences(read_cgs(tk, d));
     else if (op == "add_space_dimensions_and_embed") p.add_space_dimensions_and_embed(tk.nextl());
     else if (op == "add_space_dimensions_and_project") p.add_space_dimensions_and_project(tk.nextl());
     else if (op == "remove_higher_space_dimensions") p.remove_higher_space_dimensions(tk.nextl());
@@ -211,6 +235,9 @@ static IProd* make(const std::string& pair, char red, unsigned dim, Degenerate_E
   if (pair == "BC") return make_prod<Rational_Box, C_Polyhedron>(red, dim, k);
   if (pair == "SC") return make_prod<QBDS, C_Polyhedron>(red, dim, k);
   if (pair == "GG") return make_prod<Grid, Grid>(red, dim, k);
+  if (pair == "CS") return make_prod<C_Polyhedron, QBDS>(red, dim, k);
+  if (pair == "BO") return make_prod<Rational_Box, QOCT>(red, dim, k);
+  if (pair == "NB") return make_prod<NNC_Polyhedron, Rational_Box>(red, dim, k);
   throw std::runtime_error("case: bad pair " + pair);
 }
 
